@@ -489,6 +489,8 @@ class Gen:
 			(kind == 'int') or (kind == 'float' and name in ('sum', 'term')) or (kind == 'str' and name in ('sum', 'term')))
 		if usable and kind == 'float' and rng.random() < 0.14:
 			return self.sensitive_chain(name)
+		if usable and kind == 'str' and name == 'sum' and rng.random() < 0.12 and self.on('escape', 1.0):
+			return self.escape_join_chain()
 		n = 1
 		if usable:
 			p = {'or': 0.12, 'xor': 0.12, 'and': 0.12, 'shift': 0.15, 'sum': 0.45, 'term': 0.35}[name]
@@ -573,6 +575,46 @@ class Gen:
 			shown = f'({t})' if t.startswith('-') and rng.random() < 0.5 else t
 			out = f'{out} {op} {shown}'
 		return out, acc
+
+	def escape_join_chain(self) -> tuple[str, Any]:
+		"""A `+` chain of 2-3 string tokens whose JOIN sits at the boundary of an escape sequence: the (accumulated) left text ends in an
+		escape of every length of its form — octal with one, two, three digits, `\\xhh`, `\\uhhhh`, a one-character escape, an escaped backslash
+		(even / odd runs of backslashes before the digits) — and the right text starts with a character that would continue it (octal
+		digit, 8 / 9, hexadecimal letter). All tokens are valid Python; CPython decodes each token on its own."""
+		rng = self.rng
+		self.feats.add('escape')
+		form = rng.choice(['oct1', 'oct2', 'oct2', 'oct3', 'hex', 'u', 'simple', 'bs'])
+		if form.startswith('oct'):
+			k = int(form[3])
+			digits = ''.join(rng.choice('01234567') for _ in range(k))
+			if k == 3:
+				digits = rng.choice('0123') + digits[1:]
+			tail = '\\' + digits
+		elif form == 'hex':
+			tail = '\\x' + rng.choice(['41', '4', '0']) .ljust(2, rng.choice('0123456789abcdef'))
+		elif form == 'u':
+			tail = '\\u00' + rng.choice(['e9', '41', '37'])
+		elif form == 'simple':
+			tail = '\\' + rng.choice('ntrabfv0')
+		else:
+			tail = '\\\\' + rng.choice(['', '1', '12', '7'])           # an escaped backslash, then plain digits
+		lead = rng.choice(['', '', 'x', 'a', '\\\\', '\\\\\\\\', ' '])  # nothing, text, one or two ESCAPED backslashes before the escape
+		head = rng.choice(['0', '1', '3', '7', '7', '8', '9', 'a', 'F', 'x', 'n', ''])
+		rest = rng.choice(['', '', 'y', '0', ' z'])
+		qs = [rng.choice(["'", '"']) for _ in range(3)]
+		parts = [f'{qs[0]}{lead}{tail}{qs[0]}', f'{qs[1]}{head}{rest}{qs[1]}']
+		r = rng.random()
+		if r < 0.3:
+			parts.insert(0, f"{qs[2]}{rng.choice(['a', '', 'q '])}{qs[2]}")           # 'a' + '\01' + '0': the accumulated left text ends in the escape
+		elif r < 0.45:
+			parts.append(f"{qs[2]}{rng.choice(['7', 'b', ''])}{qs[2]}")
+		text = ' + '.join(parts)
+		with warnings.catch_warnings():
+			warnings.simplefilter('ignore')
+			try:
+				return text, eval(text, {'__builtins__': {}})  # noqa: S307 - generated string literals
+			except Exception as e:  # noqa: BLE001
+				return text, e
 
 	def member_expr(self) -> tuple[str, Any, set[str]]:
 		for _ in range(40):
@@ -1193,6 +1235,8 @@ def stream_unescape(ctx: Ctx) -> Stream:
 	except Exception:  # noqa: BLE001 - the translator stage reports the broken tie; the stream still runs against the proved patterns
 		pats = (gen_eval_ops.JOINS_LEFT_EXPECTED, gen_eval_ops.JOINS_RIGHT_EXPECTED)
 	joins_left, joins_right = re.compile(pats[0]), re.compile(pats[1])
+	from rogw.tranp.implements.transpiler.evaluator import LiteralEvaluator
+	real_joins = getattr(LiteralEvaluator, '_joins_escape', lambda *a: (_ for _ in ()).throw(AttributeError('_joins_escape')))
 	triples = []
 	for i in range(ctx.scale(400, 4000)):
 		left, right = gen_body(rng), gen_body(rng)
@@ -1209,6 +1253,12 @@ def stream_unescape(ctx: Ctx) -> Stream:
 			ops.append(f'unesc\t{hx(body)}')
 		ops.append(f'joins\t{hx(left)}\t{hx(right)}')
 		real.append('true' if joins_left.search(left) is not None and joins_right.match(right) is not None else 'false')
+		# … and the shipped method itself on the two quoted tokens (it does not look at `self`)
+		ops.append(f'joins\t{hx(left)}\t{hx(right)}')
+		try:
+			real.append('true' if real_joins(None, f"'{left}'", f"'{right}'") else 'false')
+		except Exception as e:  # noqa: BLE001
+			real.append(exc_enum(e))
 		triples.append(({'class': f"joins={real[-1]}", 'left': left, 'right': right}, ops, real))
 	st = common.correspond('unescape', triples, 'eval', classify=classify_case)
 	st.note = ('pairs of valid token bodies (plain pieces, octal 1-3 digits in greedy runs, \\xhh, one-character and unknown escapes): CPython eval of the quoted body vs decodeEsc '
